@@ -6,7 +6,7 @@ streams
          independently over a char->code *map*, with the conventions DESIGN.md section 6/C01 records).
   code : `whichCode` of characters after table operations; oracle = the map semantics of \\catcode.
 """
-import logging, itertools
+import logging, itertools, zlib
 import extract
 from framework import Case, Violation
 
@@ -467,6 +467,45 @@ def parse_dyn(case):
     return sched, ''.join(chr(int(x)) for x in cps.split())
 
 
+def entry_points(ctx, ops, s):
+    import tempfile, os
+    from plasTeX.Tokenizer import Tokenizer
+    from plasTeX.TeX import TeX
+    out = []
+    def run(name, f):
+        set_table(ctx, ops)
+        try:
+            out.append((name, canon([(t.catcode, str(t)) for t in f()])))
+        except Exception as e:
+            out.append((name, 'err:' + type(e).__name__))
+    run('bytes', lambda: Tokenizer(s.encode('utf-8'), ctx))
+    run('TeX.input', lambda: TeX(_env['doc']).input(s).itertokens())
+    d = tempfile.mkdtemp(prefix='c01-')
+    path = os.path.join(d, 'job.tex')
+    try:
+        with open(path, 'w', encoding='utf-8', newline='') as fh:
+            fh.write(s)
+        def fileobj():
+            with open(path, encoding='utf-8', newline='') as fh:
+                return list(Tokenizer(fh, ctx))
+        run('file-object', fileobj)
+        def texfile():
+            tex = TeX(_env['doc'], file=path)
+            try:
+                return list(tex.itertokens())
+            finally:
+                while tex.inputs:
+                    tex.endInput()
+        run('TeX(file=)', texfile)
+    finally:
+        try:
+            os.remove(path)
+        except OSError:
+            pass
+        os.rmdir(d)
+    return out
+
+
 def impl(case, aux):
     from plasTeX.Tokenizer import Tokenizer
     ctx = _ctx()
@@ -518,9 +557,17 @@ def impl(case, aux):
     if case.stream == 'code':
         return ' '.join(str(int(ctx.whichCode(c))) for c in s)
     try:
-        return canon([(t.catcode, str(t)) for t in Tokenizer(s, ctx)])
+        base = canon([(t.catcode, str(t)) for t in Tokenizer(s, ctx)])
     except Exception as e:
         return 'err:' + type(e).__name__
+    if '\r' not in s and zlib.crc32(case.line.encode()) % 16 == 0:
+        # the same text through the other ways a user hands it to plasTeX: bytes, an open file, TeX.input, TeX(file=...)
+        # (text-mode files translate \r, so texts with \r are compared on the string entry only)
+        alt = entry_points(ctx, ops, s)
+        for name, r in alt:
+            if r != base:
+                return 'entry-mismatch:%s:%s' % (name, r)
+    return base
 
 
 def judge(o):
